@@ -1,6 +1,7 @@
 SPECIFICATION Spec
 INVARIANT EscNeedsDotDot
 INVARIANT CleanSane
+INVARIANT LiteralEscapeIsOrdinary
 INVARIANT DefaultsInside
 INVARIANT RefSatisfiable
 INVARIANT BadRejected
